@@ -346,10 +346,26 @@ func runC20(c *core.Ctx) {
 			bounds = append(bounds, fmt.Sprintf("interleaved: every history of <=%d operations over %d (6 insertions, 5 prefix queries, 3 membership queries) ending in a query, each query checked when it is made", depth, len(ops)))
 		}
 	}
+	// 2c. full fan-out: a node that gets all 256 children, in increasing and decreasing byte order
+	if c.Shard == 0 || c.Of == 1 {
+		for _, stem := range []string{"", "x", "id"} {
+			for _, rev := range []bool{false, true} {
+				stem, rev := stem, rev
+				cs := core.Case{Kind: "fanout", Cfg: fmt.Sprint(rev), Data: stem}
+				v := c.Run(func() *core.Viol { return c20Fanout(stem, rev, cs) })
+				out := "fanout-ok"
+				if v != nil {
+					out = v.Class
+				}
+				c.CountNT(fmt.Sprintf("fanout: stem %q reverse=%v", stem, rev), out, true)
+			}
+		}
+		bounds = append(bounds, "fan-out: stems \"\", \"x\", \"id\" followed by each of the 256 byte values, inserted in increasing and decreasing order, prefix query checked after every insertion")
+	}
 	// 3. through the interpreter: top-level definitions recorded in a registered trie
 	if c.Shard == 0 || c.Of == 1 {
 		c20Session(c)
-		bounds = append(bounds, "session: all sequences <=3 of 8 top-level definitions")
+		bounds = append(bounds, fmt.Sprintf("session: all sequences <=3 of %d top-level definitions (variables, functions, lambdas, constants, refused redefinitions of constants and extension names)", len(c20Defs)))
 	}
 	c.P.Bound = strings.Join(bounds, "; ")
 }
@@ -407,6 +423,34 @@ func c20IlRun(idx []int) (string, string) {
 	return "", ""
 }
 
+func c20Fanout(stem string, rev bool, cs core.Case) *core.Viol {
+	t := trie.NewTrie()
+	var want []string
+	for k := 0; k < 256; k++ {
+		b := k
+		if rev {
+			b = 255 - k
+		}
+		w := stem + string([]byte{byte(b)})
+		t.Insert(w)
+		want = append(want, w)
+		sort.Strings(want)
+		for _, p := range []string{stem, ""} {
+			l, got := t.PrefixAll(p)
+			if strings.Join(got, "\x00") != strings.Join(want, "\x00") {
+				return &core.Viol{Class: "fanout:prefixall-set", Detail: fmt.Sprintf("after %d insertions PrefixAll(%q) returns %d words, reference %d", k+1, p, len(got), len(want)), Case: cs}
+			}
+			if l != lcp(want) {
+				return &core.Viol{Class: "fanout:prefixall-len", Detail: fmt.Sprintf("after %d insertions under stem %q: PrefixAll(%q) length %d, reference %d", k+1, stem, p, l, lcp(want)), Case: cs}
+			}
+		}
+		if !t.Contains(w) {
+			return &core.Viol{Class: "fanout:contains", Detail: fmt.Sprintf("Contains(%q) false after inserting it", w), Case: cs}
+		}
+	}
+	return nil
+}
+
 func c20Ints(idx []int) string {
 	parts := make([]string, len(idx))
 	for i, x := range idx {
@@ -427,6 +471,8 @@ func popcount(x uint64) int {
 var c20Defs = []struct{ src, name, suffix string }{
 	{"abc=1", "abc", " "}, {"ab=2", "ab", " "}, {"a=3", "a", " "}, {"b=4", "b", " "},
 	{"func abc(){1}", "abc", "("}, {"func ab(){2}", "ab", "("}, {"a=()=>3", "a", "("}, {"abcd=\"x\"", "abcd", " "},
+	// constants and extension names: the second definition of another kind / value is refused
+	{"LIM=10", "LIM", " "}, {"LIM=func(){1}", "LIM", "("}, {"func ANS(){42}", "ANS", "("}, {"ANS=43", "ANS", " "}, {"PI=func(){1}", "PI", "("}, {"sin=42", "sin", " "},
 }
 
 func c20SessionOne(seq []int) (string, string) {
@@ -448,7 +494,9 @@ func c20SessionOne(seq []int) (string, string) {
 		d := c20Defs[i]
 		_, _, errs, _ := repl.EvalOne(context.Background(), s, d.src, io.Discard, opts)
 		if len(errs) > 0 {
-			return "session-error", fmt.Sprintf("%q: %v", d.src, errs)
+			// a refused definition (changing a constant, an extension function's name) defines nothing:
+			// the index must stay as it was
+			continue
 		}
 		if !want[d.name] { // first definition of the name: both forms must be recorded
 			must[d.name] = true
@@ -535,6 +583,9 @@ func init() {
 		QuickCap: 100 * time.Second, ThoroughCap: 15 * time.Minute,
 		Run: runC20,
 		Replay: func(c *core.Ctx, cs core.Case) *core.Viol {
+			if cs.Kind == "fanout" {
+				return c20Fanout(cs.Data, cs.Cfg == "true", cs)
+			}
 			if cs.Kind == "interleaved" {
 				cl, det := c20IlRun(parseInts(cs.Data))
 				if cl == "" {
